@@ -111,14 +111,14 @@ def expectations : List Expect := [
   -- routers
   ⟨"gorillamux/router.go", "Router.FindRoute", .index, 1,
      .invariant "r.routes and r.muxes are appended together in NewRouter; i ranges over r.muxes"⟩,
-  ⟨"gorillamux/router.go", "makeServers", .index, 3,
-     .knownFinding "F-C10-3 (rest[:rhs] with rhs = -1: Router.gorillaPortBranch, portUnclosed_panics)"⟩,
+  ⟨"gorillamux/router.go", "makeServers", .index, 2,
+     .libraryContract "serverURL[lhs+2:] after lhs = Index(url, \":{\") > 0; submatch[1] of a one-group regexp that matched (rest[:rhs] is guarded since a0fa632: Router.gorillaPortBranch_no_panic)"⟩,
   ⟨"gorillamux/router.go", "newSrv", .index, 2,
      .libraryContract "strings.Split returns at least one element; permutePart returns a non-empty list (Router.permute_nonempty)"⟩,
   ⟨"gorillamux/router.go", "permutePart", .intDiv, 1,
      .invariant "mas.s holds the default value: len ≥ 1 (every variable contributes {Default})"⟩,
   ⟨"legacy/router.go", "Router.FindRoute", .index, 2,
-     .invariant "Server.matchRawURL_params_le / pathpattern: one value per variable token (Router.matchToks_vals)"⟩,
+     .invariant "one value per variable: ParameterNames/MatchRawURL and pathpattern tokens; node != nil on this path since 8654816 (Router.legacyAfterServer_no_panic)"⟩,
   ⟨"legacy/router.go", "Routers.FindRoute", .derefOptStruct, 2,
      .invariant "routers built by NewRouter carry a non-nil doc"⟩,
   ⟨"openapi3/path_item.go", "PathItem.GetOperation", .explicitPanic, 1,
@@ -147,8 +147,6 @@ def expectations : List Expect := [
      .invariant "resultArr is made with len(arr) and i ranges over arr"⟩,
   ⟨"openapi3filter/req_resp_decoder.go", "decodeSchemaConstructs", .derefRefValue, 4, .refsResolved⟩,
   ⟨"openapi3filter/req_resp_decoder.go", "decodeValue", .derefRefValue, 11, .refsResolved⟩,
-  ⟨"openapi3filter/req_resp_decoder.go", "defaultContentParameterDecoder", .derefOptStruct, 1,
-     .knownFinding "F-C10-4 (mt.Schema is nil for a content parameter whose media type has no schema: Traffic.contentParamNoSchema)"⟩,
   ⟨"openapi3filter/req_resp_decoder.go", "defaultContentParameterDecoder", .derefRefValue, 1, .refsResolved⟩,
   ⟨"openapi3filter/req_resp_decoder.go", "parseArray", .derefRefValue, 1, .refsResolved⟩,
   ⟨"openapi3filter/req_resp_decoder.go", "parsePrimitive", .derefRefValue, 1, .refsResolved⟩,
